@@ -598,8 +598,9 @@ Definition root_reg : region := mkReg 0 0 8.
 Definition slots (h : Ptr) : list (Z * Z) := children (tgt_of h).
 Definition in_msg (ms : segs) (r : region) : Prop := in_seg ms (r_seg r) (r_start r) (r_size r) = true.
 
-(* what a pointer slot holds: the null word, the inline empty struct (offset -1), or the words
-   the placement switch stores for a table object (with pads of the pad table) *)
+(* what a pointer slot holds: the null word, the inline empty struct (offset -1), the words the
+   placement switch stores for a table object (with pads of the pad table), or a capability
+   pointer *)
 Definition empty_struct_word : Z := 4294967292.   (* rawStructPointer (-1) (mkOS 0 0) *)
 Lemma empty_struct_word_eq : rawStructPointer (-1) (mkOS 0 0) = Some empty_struct_word.
 Proof. reflexivity. Qed.
@@ -607,9 +608,10 @@ Proof. reflexivity. Qed.
 Definition slot_ok (ms : segs) (pads : list region) (objs : list Ptr) (q : Z * Z) : Prop :=
   word_at ms (fst q) (snd q) = Some 0 \/
   word_at ms (fst q) (snd q) = Some empty_struct_word \/
-  exists h ps raw oldlen, In h objs /\ incl ps pads /\ raw_of h = Ok raw /\
+  (exists h ps raw oldlen, In h objs /\ incl ps pads /\ raw_of h = Ok raw /\
     (p_kind h = KStruct -> os_isZero (p_size h) = false) /\
-    placed ms (fst q) (snd q) (p_seg h) (obj_start h) raw oldlen ps.
+    placed ms (fst q) (snd q) (p_seg h) (obj_start h) raw oldlen ps) \/
+  (exists idx, 0 <= idx < 4294967296 /\ word_at ms (fst q) (snd q) = Some (rawInterfacePointer idx)).
 
 (* ... and how the strict validator resolves it *)
 Definition slot_res (ms : segs) (pads : list region) (objs : list Ptr) (q : Z * Z) : Prop :=
@@ -774,10 +776,11 @@ Proof.
                 word_at (bm_data m') i b = Some w).
   { intros i b w E HR. destruct (word_at_range _ _ _ _ E) as (G1 & G2 & G3). rewrite zlen_bm in G1. rewrite seg_len_bm in G3.
     rewrite <- E. apply (keeps_word m m' R); auto. }
-  destruct S as [S|[S|(h & ps & raw & oldlen & Hh & Ips & Er & Hnz & Pl)]].
+  destruct S as [S|[S|[(h & ps & raw & oldlen & Hh & Ips & Er & Hnz & Pl)|(idx & Hi & S)]]].
+  4:{ right. right. right. exists idx. split; [exact Hi|]. apply W; auto. }
   - left. apply W; auto.
   - right. left. apply W; auto.
-  - right. right. exists h, ps, raw, oldlen. split; [apply Io, Hh|]. split; [intros x Hx; apply Ip, Ips, Hx|].
+  - right. right. left. exists h, ps, raw, oldlen. split; [apply Io, Hh|]. split; [intros x Hx; apply Ip, Ips, Hx|].
     split; [exact Er|]. split; [exact Hnz|].
     destruct Pl as [E W1|padAddr Hne Epa W1 W2|psid padAddr Hne Hps Epa W1 W2 W3].
     + apply PlNear; auto.
@@ -1055,7 +1058,14 @@ Lemma hinv_slot_res m objs pads q :
 Proof.
   intros H Hq. destruct (slot_geometry _ _ _ _ H Hq) as (Q1 & Q2 & Q3 & Q4 & _).
   pose proof (hi_small _ _ _ H (fst q)) as Hsq. unfold maxSegmentSize in Hsq.
-  destruct (hi_slots _ _ _ H q Hq) as [S|[S|(h & ps & raw & oldlen & Hh & Ips & Er & Hnz & Pl)]].
+  destruct (hi_slots _ _ _ H q Hq) as [S|[S|[(h & ps & raw & oldlen & Hh & Ips & Er & Hnz & Pl)|(idx & Hi & S)]]].
+  4:{ exists (GCap idx), []. split; [|split; [exact I|left; split; [reflexivity|exact I]]].
+      unfold resolve_ptr. rewrite S. rewrite rawInterfacePointer_sum by assumption.
+      set (w := idx * 4294967296 + 3).
+      assert (E0 : (w =? 0) = false) by (unfold w; lia). rewrite E0.
+      assert (E3 : (f_A w =? 3) = true) by (unfold f_A, w; lia). rewrite E3.
+      assert (EZ : ((w / 4) mod two30 =? 0) = true) by (unfold two30, w; lia). rewrite EZ.
+      assert (EI : w / two32 = idx) by (unfold two32, w; lia). rewrite EI. reflexivity. }
   - exists GNull, []. unfold resolve_ptr. rewrite S. cbn. split; [reflexivity|]. split; [exact I|left; split; [reflexivity|exact I]].
   - exists (GStruct (fst q) (snd q) 0 0), [mkReg (fst q) (snd q) 0]. split; [|split; [exact I|]].
     + unfold resolve_ptr. rewrite S. unfold empty_struct_word.
@@ -1172,7 +1182,7 @@ Proof.
     destruct DEC as [[E1 E2]|NE].
     + (* the slot just written *)
       assert (Eq : q' = q) by (destruct q, q'; cbn in *; congruence). subst q'.
-      right. right. exists ht, pads', raw, (fun i => zlen (mem m i)). split; [exact Hht|].
+      right. right. left. exists ht, pads', raw, (fun i => zlen (mem m i)). split; [exact Hht|].
       split; [intros x Hx; apply in_or_app; right; exact Hx|]. split; [exact Hraw|]. split; [exact Hnz|exact Hpd].
     + apply (slot_ok_frame m m' (Rword (fst q) (snd q)) pads objs); auto.
       * intros k Hk [X1 X2]. lia.
